@@ -8,7 +8,10 @@ import (
 	"image"
 	"image/color"
 	"math"
+	"runtime/debug"
+	"syscall"
 	"testing"
+	"unsafe"
 
 	"pgregory.net/rapid"
 
@@ -209,6 +212,73 @@ func compareBits(c Case, g, a []float32) *pbt.Fail {
 	return zs
 }
 
+// ---- arguments fenced by inaccessible pages: a kernel that reads (or writes) outside its argument faults ----
+
+type fence struct {
+	mem  []byte
+	data int // offset of the accessible region
+	size int // its size in bytes
+}
+
+var fences = map[int]*fence{}
+
+// fenced returns a float32 slice of n elements that ends at (atEnd) or starts at an inaccessible page.
+func fenced(n int, atEnd bool) []float32 {
+	const page = 4096
+	size := (n*4 + page - 1) / page * page
+	f := fences[size]
+	if f == nil {
+		mem, err := syscall.Mmap(-1, 0, size+2*page, syscall.PROT_READ|syscall.PROT_WRITE, syscall.MAP_ANON|syscall.MAP_PRIVATE)
+		if err != nil {
+			return nil
+		}
+		if syscall.Mprotect(mem[:page], syscall.PROT_NONE) != nil || syscall.Mprotect(mem[page+size:], syscall.PROT_NONE) != nil {
+			return nil
+		}
+		f = &fence{mem: mem, data: page, size: size}
+		fences[size] = f
+	}
+	off := f.data
+	if atEnd {
+		off = f.data + f.size - n*4
+	}
+	return unsafe.Slice((*float32)(unsafe.Pointer(&f.mem[off])), n)
+}
+
+// runFenced runs k and turns a memory fault into a message.
+func runFenced(k func()) (msg string) {
+	old := debug.SetPanicOnFault(true)
+	defer debug.SetPanicOnFault(old)
+	defer func() {
+		if r := recover(); r != nil {
+			msg = fmt.Sprint(r)
+		}
+	}()
+	k()
+	return ""
+}
+
+// fenceCheck runs a 1-D kernel on the same input placed directly below and directly above an inaccessible page and
+// compares the result with the one obtained in ordinary memory.
+func fenceCheck(c Case, x []float32, which string, k func([]float32), want []float32) *pbt.Fail {
+	for _, atEnd := range []bool{true, false} {
+		arg := fenced(len(x), atEnd)
+		if arg == nil {
+			return nil // (no mmap: nothing to check)
+		}
+		copy(arg, x)
+		if msg := runFenced(func() { k(arg) }); msg != "" {
+			return pbt.Failf("fence:"+c.Kernel+":"+which, "%s %s kernel touched memory outside its argument: with the argument ending/starting at an inaccessible page (at end: %v) it faulted: %s", which, c.Kernel, atEnd, msg)
+		}
+		for i := range arg {
+			if math.Float32bits(arg[i]) != math.Float32bits(want[i]) && !(arg[i] != arg[i] && want[i] != want[i]) {
+				return pbt.Failf("fence-result:"+c.Kernel+":"+which, "%s %s kernel gives another result next to an inaccessible page (at end: %v): coefficient %d is %08x, in ordinary memory %08x", which, c.Kernel, atEnd, i, math.Float32bits(arg[i]), math.Float32bits(want[i]))
+			}
+		}
+	}
+	return nil
+}
+
 func eval1D(c Case, n int, goK, asmK func([]float32)) *pbt.Fail {
 	var zeroSign *pbt.Fail
 	x := c.vector()
@@ -231,6 +301,16 @@ func eval1D(c Case, n int, goK, asmK func([]float32)) *pbt.Fail {
 		}
 		if zeroSign != nil && zeroSign.Key != "zero-sign:"+c.Kernel {
 			return zeroSign
+		}
+	}
+	if f := fenceCheck(c, x, "portable", goK, gArg); f != nil {
+		return f
+	}
+	if transforms32.VerifAsmAvailable() {
+		aRef, _ := carve(x, 0)
+		asmK(aRef)
+		if f := fenceCheck(c, x, "assembly", asmK, aRef); f != nil {
+			return f
 		}
 	}
 	sum, nnz, minAbs, finite := l1(x)
@@ -340,6 +420,21 @@ func eval2D(c Case) *pbt.Fail {
 			if !sameBits(pOut[i], aOut[i]) && !(pOut[i] == 0 && aOut[i] == 0) {
 				return pbt.Failf("bits:dct2d-entry", "DCT2DHash64 (platform selection) differs from the assembly kernel at coefficient %d", i)
 			}
+		}
+	}
+	// the same input directly below / above an inaccessible page
+	if transforms32.VerifAsmAvailable() {
+		for _, atEnd := range []bool{true, false} {
+			arg := fenced(len(x), atEnd)
+			if arg == nil {
+				break
+			}
+			copy(arg, x)
+			var out [64]float32
+			if msg := runFenced(func() { out = transforms32.VerifDCT2DHash64Asm(arg) }); msg != "" {
+				return pbt.Failf("fence:dct2d:assembly", "assembly 2-D kernel touched memory outside its argument: with the argument ending/starting at an inaccessible page (at end: %v) it faulted: %s", atEnd, msg)
+			}
+			_ = out
 		}
 	}
 	sum, _, minAbs, finite := l1(x)
@@ -660,7 +755,7 @@ func TestProp(t *testing.T) {
 	defer rec.MustWrite()
 	rec.Rule("exhaustive: every unit impulse (+1 and -1) of the 64- and 256-point kernels at every slice offset 0..7, every unit impulse of the 64x64 2-D kernel (4096 positions, both signs), all-equal / alternating / single-sign-flip vectors at every position; " +
 		"random: vectors scaled over 12 decades, per-element mixed scales, 1-4 spikes (biased to the middle), pixel-range data, ramps, extremes near the overflow limit, denormals, mirror-symmetric vectors broken in one place; 2-D inputs built from generated rows, sparse, smooth and noisy images; " +
-		"oracles: asm(x) and go(x) bit-identical (1-D kernels in place, 2-D returned block, and the selected entry point), NaN-payload guard words around the argument intact, |go(x) - DCT-II(x)|_inf <= 1e-5 ||x||_1 against a direct float64 evaluation of the definition " +
+		"every argument is also placed directly below and directly above an inaccessible page (mmap + mprotect): a read or write outside it faults; oracles: asm(x) and go(x) bit-identical (1-D kernels in place, 2-D returned block, and the selected entry point), NaN-payload guard words around the argument intact, |go(x) - DCT-II(x)|_inf <= 1e-5 ||x||_1 against a direct float64 evaluation of the definition " +
 		"(float64 kernels: returned block and in-place rows within 1e-12 ||x||_1), hashes of Gray/RGBA images identical with portable and platform kernels. non-trivial = >= 2 non-zero elements of different magnitude; distinct by (kernel, input, offset)")
 	rec.Assume("inputs are finite; the accuracy clause is evaluated when ||x||_1 <= 1e30 and every non-zero |x_i| >= 1e-30 (outside that range float32 cannot represent 1e-5 of the input, or intermediates overflow); bit equality and guard words are checked on every input")
 	rec.Assume("hash comparison uses Gray and RGBA images only: for YCbCr images the platform selection also switches the gray conversion, which is C20's subject")
